@@ -526,6 +526,37 @@ def composed_case(ctx, rng, idx):
                       'composed_separate_vs_reduced',
                       {'separate': dth, 'reduced_reference':
                        g_ref[h.n_bottom:], 'case': feats}, feats)
+        return
+    # parts without bottom-level parameters (pooled, heterogeneous, also
+    # under covariate models): the sensitivities w.r.t. their individual
+    # parameters, folded back through psi_i = vartheta_i, plus those w.r.t.
+    # their population parameters add up to the reduced form - nothing is
+    # lost and nothing is counted twice
+    if np.any(~reg):
+        special = []
+        idim = 0
+        for l in leaves:
+            special += [not l.n_hdim()] * l.n_dim
+            idim += l.n_dim
+        special = np.array(special)
+        dpsi_ = np.asarray(dpsi, dtype=float).reshape(n_ids, h.n_dim)
+
+        def fold(zt):
+            zz = np.array(x, dtype=complex)
+            m = np.concatenate([np.zeros(h.n_bottom, dtype=bool), free])
+            zz[m] = zt
+            _, psi_ = h.pop_score(zz, cov)
+            return np.sum(dpsi_[:, special] * psi_[:, special])
+        total = dth + D.cstep_grad(fold, top_free)
+        ctx.count('separate_form_parts_added')
+        if not ctx.close(total[~reg], g_ref[h.n_bottom:][~reg], rtol=1e-8,
+                         scale=gs):
+            ctx.violation('gradient_forms_agree',
+                          'composed_separate_parts_do_not_add_up',
+                          {'dtheta': dth, 'dpsi': dpsi_,
+                           'parts_added': total,
+                           'reduced_reference': g_ref[h.n_bottom:],
+                           'case': feats}, feats)
 
 
 def support_case(ctx, rng, idx):
@@ -544,7 +575,13 @@ def support_case(ctx, rng, idx):
         # the density of eta does not depend on sigma; chi may still refuse
         pass
     if what == 'negative_scale':
-        theta[n_dim + int(rng.integers(n_dim))] *= -1
+        if idx // 10 % 3 == 2:
+            # every scale negative at once (an even number of signs cancels
+            # in a product)
+            theta[n_dim:2 * n_dim] *= -1
+            what = 'all_scales_negative'
+        else:
+            theta[n_dim + int(rng.integers(n_dim))] *= -1
     else:
         # (psi < 0; the boundary psi = 0 itself is not generated: the
         # repository's tests pin a finite score there for the truncated
